@@ -10,6 +10,8 @@ import (
 	"sort"
 	"strconv"
 	"strings"
+	"sync/atomic"
+	"unsafe"
 )
 
 type Sort struct {
@@ -44,12 +46,12 @@ type Term struct {
 	B    bool     // "bool"
 	// quantifier
 	Bound []*Term // for "forall": bound vars
-	key   string
+	key   *string // memoised Key(); written once, read and written from the discharge goroutines (atomic)
 }
 
 func (t *Term) Key() string {
-	if t.key != "" {
-		return t.key
+	if k := (*string)(atomic.LoadPointer((*unsafe.Pointer)(unsafe.Pointer(&t.key)))); k != nil {
+		return *k
 	}
 	var sb strings.Builder
 	switch t.Op {
@@ -81,8 +83,9 @@ func (t *Term) Key() string {
 		}
 		sb.WriteString(")")
 	}
-	t.key = sb.String()
-	return t.key
+	k := sb.String()
+	atomic.StorePointer((*unsafe.Pointer)(unsafe.Pointer(&t.key)), unsafe.Pointer(&k))
+	return k
 }
 
 func Int(n int64) *Term           { return &Term{Op: "int", Int: big.NewInt(n), Sort: SInt} }
@@ -695,10 +698,8 @@ func Subst(t *Term, m map[string]*Term) *Term {
 	if !changed {
 		return t
 	}
-	n := *t
-	n.Args = args
-	n.key = ""
-	return &n
+	// not a struct copy: the memoised key of t may be written by another discharge goroutine at this moment
+	return &Term{Op: t.Op, Args: args, Sort: t.Sort, Name: t.Name, Int: t.Int, Str: t.Str, B: t.B, Bound: t.Bound}
 }
 
 // symbols collects the free variable and uninterpreted-function names of t.
@@ -816,10 +817,7 @@ func AbstractPrefix(hyps []*Term, goal *Term) ([]*Term, *Term) {
 		if !changed {
 			return t
 		}
-		n := *t
-		n.Args = args
-		n.key = ""
-		return &n
+		return &Term{Op: t.Op, Args: args, Sort: t.Sort, Name: t.Name, Int: t.Int, Str: t.Str, B: t.B, Bound: t.Bound}
 	}
 	out := make([]*Term, 0, len(hyps))
 	for _, h := range hyps {
